@@ -34,6 +34,7 @@ macro_rules! dispatch {
             "C15" => pbt::$f::<props::c15::C15>($($args),*),
             "C16" => pbt::$f::<props::c16::C16>($($args),*),
             "C08" => pbt::$f::<props::c08::C08>($($args),*),
+            "C18" => pbt::$f::<props::c18::C18>($($args),*),
             "C10" => pbt::$f::<props::c10::C10>($($args),*),
             "C17" => pbt::$f::<props::c17::C17>($($args),*),
             other => {
